@@ -18,7 +18,7 @@ import tempfile
 import numpy as np
 
 from ..ctx import digest
-from ..snap import samples_of
+from ..snap import samples_of, any_digest
 from ..ref import files as F
 from ..ref import gamma as gref
 
@@ -30,6 +30,11 @@ RULE = ('cases: synthetic file sets (rwms 1.4/1.6/2.0, ms.dat energy density + t
         'arbitrary first configuration / spacing crossing digit counts (9,10,...,100), 1-3 factors / sources / flow times / time slices / '
         'correlators, pairwise distinct numbers; every documented selection (r_start/r_stop/r_step/idl/files/names/replica/version/postfix/'
         'flow time/real-imag ...) incl. ones that must raise; each read repeated under sorted, reversed and seeded random directory listings; '
+        'hardening classes: twin file sets with identical file / directory names and different content read A,B,A,B in one process and the directory '
+        'rewritten, earlier results re-digested and tested for shared memory, argument objects reused, path spellings (trailing slash, ./, relative), '
+        'selections as tuple / ndarray / numpy ints (undocumented forms: an exception is telemetry, a result is judged), a prefix-sharing complete '
+        'neighbour set in the same directory, postfix look-alikes, r_start == r_stop, r_step beyond the length, single-record files, files / names / '
+        'configurations listed twice, all numbers scaled by 1e-300 ... 1e300 with signed zeros, reweighting exponents near overflow; '
         'a file set is non-trivial when at least one read returned and every number of it was compared and the set has replicas or '
         'configurations with different digit counts; distinct = digest of (format, parameters, table)')
 ASSUMPTIONS = ['writers are validated byte-for-byte against the sample files under tests/data (openQCD 1.4 derived from the 1.6 sample, '
@@ -38,7 +43,10 @@ ASSUMPTIONS = ['writers are validated byte-for-byte against the sample files und
                'by its warning (rwms: only if spacing > 1; ms.dat energy: unless assume_thermalization=False; flow observables: always)',
                'r_value + delta reproduces a sample to 1e-13 of the largest sample of the chain',
                't0 / w0 are compared with a closed-form weighted linear fit (weights from the reference Gamma method) at rtol 1e-6',
-               'per-replica lists (r_start, r_stop, idl of ms5_xsf, files of sfcf) are given in the order in which the reader lists the replicas']
+               'per-replica lists (r_start, r_stop, idl of ms5_xsf, files of sfcf) are given in the order in which the reader lists the replicas',
+               'little-endian host (the formats are written little-endian as documented; the readers use native byte order except for the sfqcd header)',
+               'not judged, counted: in-place sorting of the caller\'s files / replica lists by the sfcf readers, read_hd5(idl=[]) returning all configurations, '
+               'exceptions for selection types the documentation does not list']
 BUDGET = {'quick': 45, 'thorough': 480}
 TMPROOT = '/var/tmp'
 
@@ -235,6 +243,7 @@ class Read:
                 res = call()
             except Exception as e:
                 LIST.mode = 'sorted'
+                args_unchanged(ctx, self.fmt, self.sel)
                 ctx.count('reads_judged')
                 if must_raise:
                     ctx.ev()
@@ -246,6 +255,7 @@ class Read:
                 lib_exception(ctx, e, tag, {'listing': mode, 'what': what})
                 continue
             LIST.mode = 'sorted'
+            args_unchanged(ctx, self.fmt, self.sel)
             ctx.count('reads_judged')
             if must_raise:
                 ctx.ev()
@@ -262,7 +272,7 @@ class Read:
 # ------------------------------------------------------------------------------------------------
 REP_POOLS = {1: [[1], [0], [10], [3]],
              2: [[1, 10], [2, 10], [9, 10], [0, 10], [1, 2], [2, 11]],
-             3: [[1, 2, 10], [0, 1, 10], [2, 10, 11], [9, 10, 100], [1, 2, 3], [2, 3, 10]]}
+             3: [[1, 2, 10], [0, 1, 10], [2, 10, 11], [9, 10, 100], [1, 2, 3], [2, 3, 10], [2, 10, 100]]}
 
 
 def gen_reps(rng, nrep=None):
@@ -360,15 +370,32 @@ def pick_window(rng, cfgs, minlen=5, step=1):
     return cfgs[i], cfgs[j]
 
 
+ARGS_SEEN = []   # (argument name, object, digest before the call) of the most recent reader call
+
+
 def fresh(kw):
-    """Fresh copies of list arguments (the readers sort some of them in place)."""
+    """Fresh copies of list arguments (each call gets its own objects) - registered so that Read.run can see whether the
+    reader changed an argument of the caller (checklist item 7)."""
     out = {}
+    del ARGS_SEEN[:]
     for a, b in kw.items():
         if isinstance(b, list):
             out[a] = [list(x) if isinstance(x, list) else x for x in b]
         else:
             out[a] = b
+        if isinstance(out[a], (list, np.ndarray)):
+            ARGS_SEEN.append((a, out[a], any_digest(out[a])))
     return out
+
+
+def args_unchanged(ctx, fmt, sel):
+    """Telemetry: did the reader modify a list the caller passed in?  (Neither property states that arguments are left
+    untouched, so this is counted and reported, not judged; leaks INTO later calls are judged through their results.)"""
+    for a, obj, dg in ARGS_SEEN:
+        ctx.count('args_digested')
+        if any_digest(obj) != dg:
+            ctx.count('arg-modified-in-place:%s:%s' % (fmt.split('-')[0] if fmt.startswith('rwms') else fmt, a))
+    del ARGS_SEEN[:]
 
 
 def run_sel(ctx, rng, fmt, sel, call, exp, judge_fn, what, k=3, alt=None, alt_tag=None, must_raise=None):
@@ -439,7 +466,7 @@ def observe_names_permuted(ctx, fmt, call, positional, resorted, getobs=None):
 class RwmsSet:
     fmt = 'rwms'
 
-    def __init__(self, rng, tier, small=False, version=None):
+    def __init__(self, rng, tier, small=False, version=None, data_rng=None, scale=1.0):
         self.version = version or str(rng.choice(['1.4', '1.6', '2.0']))
         self.fmt = 'rwms-' + self.version
         self.nrw = int(rng.integers(1, 4)) if not small else int(rng.integers(1, 3))
@@ -456,12 +483,12 @@ class RwmsSet:
             t, s = gen_trajectories(rng, n_cfg(rng, tier, small))
             self.traj[r] = t
             ntot += len(t)
-        src = F.Distinct(rng, ntot * per + 8, -1.5, 1.5)
+        src = F.Distinct(data_rng or rng, ntot * per + 8, -1.5, 1.5)
         for r in self.reps:
             recs = []
             for nc in self.traj[r]:
                 sqn = [src.block(f, s) + 1500.0 for f, s in zip(self.nfct, self.nsrc)]
-                lnr = [src.block(f, s) for f, s in zip(self.nfct, self.nsrc)]
+                lnr = [src.block(f, s) * scale for f, s in zip(self.nfct, self.nsrc)]
                 if self.version == '2.0':
                     recs.append((nc, sqn, lnr, [src.block(f, s) for f, s in zip(self.nfct, self.nsrc)],
                                  [src.block(f, s) for f, s in zip(self.nfct, self.nsrc)]))
@@ -615,7 +642,7 @@ def case_rwms(ctx, rng, version=None):
 class MsdatSet:
     fmt = 'ms.dat'
 
-    def __init__(self, rng, tier, small=False, flow_fit=False, dtr=None):
+    def __init__(self, rng, tier, small=False, flow_fit=False, dtr=None, data_rng=None, scale=1.0):
         self.dn = int(rng.choice([1, 2, 5]))
         self.nn = int(rng.integers(2, 5)) if not flow_fit else int(rng.integers(9, 14))
         if small:
@@ -638,7 +665,7 @@ class MsdatSet:
             self.traj[r], _ = gen_trajectories(rng, n, spacing=spacing, first_mult=bool(dtr))
         m = (self.nn + 1) * self.tmax
         ntot = sum(len(t) for t in self.traj.values())
-        src = F.Distinct(rng, 3 * m * ntot + 8, -1.0, 1.0)
+        src = F.Distinct(data_rng or rng, 3 * m * ntot + 8, -1.0, 1.0)
         self.flow_fit = flow_fit
         self.rec = {}
         ts = np.arange(self.nn + 1) * self.dn * self.eps
@@ -646,9 +673,9 @@ class MsdatSet:
         for r in self.reps:
             recs = []
             for nc in self.traj[r]:
-                W = src.block(self.nn + 1, self.tmax)
-                Y = src.block(self.nn + 1, self.tmax)
-                Q = src.block(self.nn + 1, self.tmax) * 3.0
+                W = src.block(self.nn + 1, self.tmax) * scale
+                Y = src.block(self.nn + 1, self.tmax) * scale
+                Q = src.block(self.nn + 1, self.tmax) * 3.0 * scale
                 if flow_fit:
                     # t^2 <E> = 0.3 t / t0*  (crosses 0.3 from below at t0*), 5 % distinct noise
                     for blk in (W, Y):
@@ -1028,7 +1055,7 @@ def case_msdat_qtop(ctx, rng):
 class Ms5Set:
     fmt = 'ms5_xsf'
 
-    def __init__(self, rng, tier, small=False):
+    def __init__(self, rng, tier, small=False, data_rng=None, scale=1.0):
         self.tmax = int(rng.integers(2, 6)) if not small else 2
         self.qc = str(rng.choice(['dd', 'ud', 'du', 'uu']))
         self.prefix = str(rng.choice(['ms5_xsf_T24L16', 'ensA', 'N200']))
@@ -1040,8 +1067,8 @@ class Ms5Set:
         for r in self.reps:
             self.cfgs[r], self.kind[r] = gen_cfgs(rng, n_cfg(rng, tier, small))
         per = 10 * self.tmax * 2 + 4
-        src = F.Distinct(rng, per * sum(len(c) for c in self.cfgs.values()) + 8, -5.0, 5.0)
-        self.rec = {r: [(c, src.block(10, self.tmax, 2), src.block(2, 2)) for c in self.cfgs[r]] for r in self.reps}
+        src = F.Distinct(data_rng or rng, per * sum(len(c) for c in self.cfgs.values()) + 8, -5.0, 5.0)
+        self.rec = {r: [(c, src.block(10, self.tmax, 2) * scale, src.block(2, 2) * scale) for c in self.cfgs[r]] for r in self.reps}
         self.files, self.bounds, self.bytes = {}, {}, {}
 
     def fname(self, r, qc=None):
@@ -1201,7 +1228,7 @@ SFCF_TYPES = {'f_A': 'bi', 'f_1': 'bb', 'F_V0': 'bib'}
 
 
 class SfcfSet:
-    def __init__(self, rng, tier, layout, small=False):
+    def __init__(self, rng, tier, layout, small=False, data_rng=None, scale=1.0):
         self.layout = layout
         self.fmt = 'sfcf-' + layout
         self.version = '2.0' + {'o': '', 'c': 'c', 'a': 'a'}[layout]
@@ -1231,16 +1258,16 @@ class SfcfSet:
                         else:
                             for w2 in self.wfs:
                                 keys.append((nm, q, off, w, w2))
-            self.order[nm] = [keys[i] for i in rng.permutation(len(keys))]
+            self.order[nm] = [keys[i] for i in (data_rng or rng).permutation(len(keys))]
         allkeys = [k for nm in self.names for k in self.order[nm]]
-        self.corder = [allkeys[i] for i in rng.permutation(len(allkeys))]   # block order in compact files
+        self.corder = [allkeys[i] for i in (data_rng or rng).permutation(len(allkeys))]   # block order in compact files
         ncf = sum(len(c) for c in self.cfgs.values())
         per = sum((1 if SFCF_TYPES[k[0]] == 'bb' else self.T) * 2 for k in allkeys)
-        src = F.Distinct(rng, per * ncf + 8, -700.0, 700.0)
+        src = F.Distinct(data_rng or rng, per * ncf + 8, -700.0, 700.0)
         self.vals = {}
         for r in self.reps:
             for c in self.cfgs[r]:
-                self.vals[(r, c)] = {k: src.block(1 if SFCF_TYPES[k[0]] == 'bb' else self.T, 2) for k in allkeys}
+                self.vals[(r, c)] = {k: src.block(1 if SFCF_TYPES[k[0]] == 'bb' else self.T, 2) * scale for k in allkeys}
         self.info = {}
 
     def block(self, r, c, key):
@@ -1526,7 +1553,7 @@ GAMMAS = ['Gamma5', 'GammaT', 'GammaX', 'GammaTGamma5', 'Identity']
 class HadronsSet:
     fmt = 'hadrons'
 
-    def __init__(self, rng, tier, small=False):
+    def __init__(self, rng, tier, small=False, data_rng=None, scale=1.0):
         self.stem = str(rng.choice(['meson_prop', 'pt_ll', 'run7.meson']))
         self.ens = str(rng.choice(['ensH', 'ensH|r1', 'A654']))
         self.T = int(rng.integers(2, 6)) if not small else 2
@@ -1540,8 +1567,8 @@ class HadronsSet:
             if p not in pairs:
                 pairs.append(p)
         self.attrs = [{'gamma_snk': a, 'gamma_src': b, 'quark': 'l'} for a, b in pairs]
-        src = F.Distinct(rng, 2 * self.T * self.K * n + 8, -9.0, 9.0)
-        self.vals = {c: [src.block(self.T) + 1j * src.block(self.T) for _ in range(self.K)] for c in self.cfgs}
+        src = F.Distinct(data_rng or rng, 2 * self.T * self.K * n + 8, -9.0, 9.0)
+        self.vals = {c: [(src.block(self.T) + 1j * src.block(self.T)) * scale for _ in range(self.K)] for c in self.cfgs}
         self.files = {}
 
     def fname(self, c):
@@ -1686,7 +1713,7 @@ GF_NORM = {4: 0.012341170468270, 6: 0.010162691462430, 8: 0.009031614807931}
 class GfmsSet:
     fmt = 'gfms'
 
-    def __init__(self, rng, tier, small=False, coupling=False):
+    def __init__(self, rng, tier, small=False, coupling=False, data_rng=None, scale=1.0):
         self.zthfl = 2
         self.ncs = int(rng.integers(2, 6)) if not small else 2
         if coupling:
@@ -1705,8 +1732,8 @@ class GfmsSet:
         for r in self.reps:
             self.traj[r], _ = gen_trajectories(rng, n_cfg(rng, tier, small))
         m = (self.ncs + 1) * 16 * self.tmax
-        src = F.Distinct(rng, m * sum(len(t) for t in self.traj.values()) + 8, -3.0, 3.0)
-        self.rec = {r: [(nc, src.block(self.ncs + 1, 16, self.tmax)) for nc in self.traj[r]] for r in self.reps}
+        src = F.Distinct(data_rng or rng, m * sum(len(t) for t in self.traj.values()) + 8, -3.0, 3.0)
+        self.rec = {r: [(nc, src.block(self.ncs + 1, 16, self.tmax) * scale) for nc in self.traj[r]] for r in self.reps}
         self.files, self.bounds, self.bytes = {}, {}, {}
 
     def fname(self, r):
@@ -1856,9 +1883,490 @@ def case_gfms(ctx, rng):
                     'trajectories': {r: [S.traj[r][0], S.traj[r][1], '...', S.traj[r][-1]] for r in S.reps}, 'reads_returned': returned})
 
 
+# ------------------------------------------------------------------------------------------------
+# hardening pass (vmon/HARDENING_CHECKLIST.md): histories, representations, name traps, boundaries, scale
+# ------------------------------------------------------------------------------------------------
+HARD_FMTS = ['rwms-1.4', 'rwms-1.6', 'rwms-2.0', 'ms.dat-energy', 'ms.dat-qtop', 'gfms', 'ms5_xsf', 'sfcf-o', 'sfcf-c', 'sfcf-a', 'hadrons']
+
+
+def make_set(fmt, rng, tier, **kw):
+    if fmt.startswith('rwms'):
+        return RwmsSet(rng, tier, version=fmt[5:], **kw)
+    if fmt.startswith('ms.dat'):
+        return MsdatSet(rng, tier, **kw)
+    if fmt == 'gfms':
+        return GfmsSet(rng, tier, **kw)
+    if fmt == 'ms5_xsf':
+        return Ms5Set(rng, tier, **kw)
+    if fmt.startswith('sfcf'):
+        return SfcfSet(rng, tier, fmt[-1], **kw)
+    return HadronsSet(rng, tier, **kw)
+
+
+class IO:
+    """Default reader call + expectation + judgement of a file set, with reader parameters that twins can share."""
+
+    def __init__(self, fmt, S, rng=None, params=None):
+        self.fmt, self.S = fmt, S
+        if params is None:
+            params = {}
+            if fmt == 'ms.dat-energy':
+                params['xmin'] = 0
+            elif fmt == 'ms.dat-qtop':
+                params['c'] = S.c_for_index(int(rng.integers(0, S.nn + 1)))
+            elif fmt == 'gfms':
+                params['c'] = S.c_for_index(int(rng.integers(0, S.ncs + 1)))
+            elif fmt == 'ms5_xsf':
+                params['corr'] = str(rng.choice(F.MS5_BI))
+            elif fmt.startswith('sfcf'):
+                nm = str(rng.choice(S.names))
+                params['name'] = nm
+                params['pos'] = 0 if fmt == 'sfcf-a' else int(rng.integers(len(S.order[nm])))
+            elif fmt == 'hadrons':
+                params['k'] = int(rng.integers(0, S.K))
+        self.params = params
+        if fmt.startswith('sfcf'):
+            self.key = S.order[params['name']][params['pos']]
+        self.family = 'openqcd' if (fmt.startswith('rwms') or fmt.startswith('ms.dat') or fmt == 'gfms') else fmt.split('-')[0]
+        self.rule = 'rwms' if fmt.startswith('rwms') else ('energy' if fmt == 'ms.dat-energy' else 'flow')
+
+    def read(self, d, prefix=None, **kw):
+        S, fmt, oq = self.S, self.fmt, PE.input.openQCD
+        pre = S.prefix if prefix is None and hasattr(S, 'prefix') else prefix
+        if fmt.startswith('rwms'):
+            kw.setdefault('postfix', S.postfix)
+            return oq.read_rwms(d, pre, version=S.version, **kw)
+        if fmt == 'ms.dat-energy':
+            return oq._extract_flowed_energy_density(d, pre, 1, self.params['xmin'], S.L, **kw)
+        if fmt == 'ms.dat-qtop':
+            return oq.read_qtop(d, pre, self.params['c'], L=S.L, **kw)
+        if fmt == 'gfms':
+            return oq.read_qtop(d, pre, self.params['c'], version='sfqcd', Zeuthen_flow=True, **kw)
+        if fmt == 'ms5_xsf':
+            return oq.read_ms5_xsf(d, pre, S.qc, self.params['corr'], **kw)
+        if fmt.startswith('sfcf'):
+            nm, q, off, w, w2 = self.key
+            return PE.input.sfcf.read_sfcf(d, pre, nm, quarks=q, corr_type=SFCF_TYPES[nm], noffset=off, wf=w, wf2=0 if w2 is None else w2,
+                                           version=S.version, silent=True, **kw)
+        kw.setdefault('idl', list(S.cfgs))
+        return PE.input.hadrons.read_hd5(os.path.join(d, S.stem), S.ens, 'meson', attrs=self.params['k'], part='real', **kw)
+
+    def expect(self, **ekw):
+        S, fmt = self.S, self.fmt
+        if fmt.startswith('rwms'):
+            return S.expect(**ekw)
+        if fmt == 'ms.dat-energy':
+            return S.expect_energy(self.params['xmin'], **ekw)
+        if fmt == 'ms.dat-qtop':
+            t = S.expect_qtop(self.params['c'], **ekw)
+            return None if t is None else {'table': t, 'tag': {'T': S.tmax - 1, 'L': S.L}}
+        if fmt == 'gfms':
+            t = S.expect(self.params['c'], zeuthen=True, **ekw)
+            return None if t is None else {'table': t, 'tag': {'T': S.tmax - 1, 'L': S.L}}
+        if fmt == 'ms5_xsf':
+            return S.expect(self.params['corr'], **ekw)
+        if fmt.startswith('sfcf'):
+            return S.expect(self.key, **ekw)
+        ekw.setdefault('idl', list(S.cfgs))
+        return S.expect(self.params['k'], 'real', **ekw)
+
+    def judge(self, ekw=None):
+        S, fmt = self.S, self.fmt
+        ekw = ekw or {}
+        if fmt.startswith('rwms'):
+            return judge_list
+        if fmt == 'ms.dat-energy':
+            return lambda c, tag, res, exp, w: judge_edict(c, tag, res, exp, S, w)
+        if fmt in ('ms.dat-qtop', 'gfms'):
+            return judge_qtop(S)
+        if fmt == 'ms5_xsf':
+            return judge_ms5(S)
+        if fmt.startswith('sfcf'):
+            inner = judge_sfcf(S, self.key, False)
+            return lambda c, tag, res, exp, w: inner(c, tag, res, exp, dict(w, _ekw={a: b for a, b in ekw.items() if a in ('reps', 'names', 'ens', 'cfgs')}))
+        inner = judge_hadrons(S, self.params['k'], 'real')
+        return lambda c, tag, res, exp, w: inner(c, tag, res, exp, dict(w, _idl=ekw.get('idl', list(S.cfgs))))
+
+    def obs(self, res):
+        fmt = self.fmt
+        if fmt.startswith('rwms') or fmt.startswith('sfcf'):
+            return list(res)
+        if fmt == 'ms.dat-energy':
+            return [res[k] for k in sorted(res)]
+        if fmt in ('ms.dat-qtop', 'gfms'):
+            return [res]
+        if fmt == 'ms5_xsf':
+            return [x for p in ms5_parts(res) for x in (p.real, p.imag)]
+        return [c[0] for c in res.content]
+
+    def cfgs(self, r):
+        """Configuration numbers of replica r as the reader reports them."""
+        S = self.S
+        if self.family == 'openqcd':
+            return cfg_map(S.traj[r], self.rule)
+        return list(S.cfgs[r])
+
+
+def twins(fmt, rng, tier):
+    """Two file sets that agree in everything a cheap key would look at (file and directory names, replicas, first / last
+    configuration, lengths, spacing, shapes) and differ in the data (and, for sfcf, in the order of the blocks)."""
+    s1, s2 = int(rng.integers(1, 2 ** 31)), int(rng.integers(1, 2 ** 31))
+    A = make_set(fmt, np.random.default_rng(s1), tier)
+    B = make_set(fmt, np.random.default_rng(s1), tier, data_rng=np.random.default_rng(s2))
+    ioA = IO(fmt, A, rng)
+    ioB = IO(fmt, B, params=ioA.params)
+    return A, B, ioA, ioB
+
+
+def obs_arrays(obs_list):
+    out = []
+    for o in obs_list:
+        for n in o.names:
+            out.append(o.deltas[n])
+    return out
+
+
+def lib_call(ctx, tag, what, fn):
+    """Run a reader where a result is required; a library exception is recorded, (None, False) returned."""
+    LIST.mode = 'sorted'
+    try:
+        res = fn()
+    except Exception as e:
+        lib_exception(ctx, e, tag, what)
+        ctx.count('reads_judged')
+        return None, False
+    ctx.count('reads_judged')
+    return res, True
+
+
+def judged(ctx, tag, io, res, exp, what, other=None, other_tag=None, ekw=None):
+    """Judge with the stable tag other_tag when the result is exactly the expectation `other` (a named cause)."""
+    jf = io.judge(ekw)
+    t = ctx.trial()
+    jf(t, tag, res, exp, what)
+    if not t.violations or other is None:
+        ctx.absorb(t)
+        return not t.violations
+    t2 = ctx.trial()
+    jf(t2, 'x', res, other, what)
+    if not t2.violations:
+        ctx.ev()
+        ctx.violation(other_tag, {'first_difference': t.violations[0], 'what': what})
+    else:
+        ctx.absorb(t)
+    return False
+
+
+def case_history(ctx, rng, fmt):
+    """Checklist 3 / 5 / 7: same-named files with different content read one after the other (both orders), the same
+    directory rewritten, earlier results unchanged and not sharing memory, argument objects reused in consecutive calls."""
+    A, B, ioA, ioB = twins(fmt, rng, ctx.tier)
+    with tempfile.TemporaryDirectory(prefix='vmon_C17_', dir=TMPROOT) as root:
+        dA, dB = os.path.join(root, 'one', 'meas'), os.path.join(root, 'two', 'meas')
+        os.makedirs(dA)
+        os.makedirs(dB)
+        A.write(dA, distractors=False)
+        B.write(dB, distractors=False)
+        ctx.count('file_sets', 2)
+        ctx.cell('hard', fmt, 'history')
+        eA, eB = ioA.expect(), ioB.expect()
+        if eA is None or eB is None:
+            return
+        order = [('A', ioA, dA, eA, eB), ('B', ioB, dB, eB, eA)]
+        if rng.random() < 0.5:
+            order = order[::-1]
+        seq = [order[0], order[1], order[0], order[1]]
+        first = None
+        results = []
+        stale = '%s:stale-data-of-same-named-file' % fmt
+        for step, (lab, io, d, e, eo) in enumerate(seq):
+            what = {'history': [x[0] for x in seq], 'step': step, 'dir': d[len(root):]}
+            res, ok = lib_call(ctx, fmt + ':history', what, lambda: io.read(d))
+            if not ok:
+                continue
+            judged(ctx, fmt + ':history', io, res, e, what, other=eo, other_tag=stale)
+            results.append((lab, io.obs(res)))
+            if first is None:
+                first = (lab, res, any_digest(io.obs(res)))
+        # 5: results handed out earlier are unchanged and share no memory with later ones
+        if first is not None:
+            ctx.ev()
+            io0 = ioA if first[0] == 'A' else ioB
+            if any_digest(io0.obs(first[1])) != first[2]:
+                ctx.violation('%s:earlier-result-changed-by-later-read' % fmt, {'history': [x[0] for x in seq]})
+            for i in range(len(results)):
+                for j in range(i + 1, len(results)):
+                    ctx.ev()
+                    if any(np.shares_memory(a, b) for a in obs_arrays(results[i][1]) for b in obs_arrays(results[j][1])):
+                        ctx.violation('%s:results-of-two-reads-share-memory' % fmt, {'reads': [results[i][0], results[j][0]]})
+        # 3: the same directory rewritten with other content (same file names)
+        import shutil
+        shutil.rmtree(dA)
+        os.makedirs(dA)
+        B.write(dA, distractors=False)
+        what = {'history': 'directory rewritten', 'dir': dA[len(root):]}
+        res, ok = lib_call(ctx, fmt + ':rewritten', what, lambda: ioB.read(dA))
+        if ok:
+            judged(ctx, fmt + ':rewritten', ioB, res, eB, what, other=eA, other_tag=stale)
+        # 7: the same argument objects handed to two consecutive calls (a reader may sort them in place; the second call
+        #    must still return the right thing), then a call without them (nothing may stick)
+        S = B
+        if ioB.family == 'openqcd' or fmt == 'ms5_xsf':
+            reps = list(S.reps)[::-1] if len(S.reps) > 1 else list(S.reps)
+            files = [S.fname(r) for r in reps]
+            names = ['lbl|r%d' % r for r in reps]
+            ekw = {'reps': reps, 'names': names}
+            kw = {'files': files, 'names': names}
+        elif fmt in ('sfcf-o', 'sfcf-c'):
+            fl = [[S.cfile(r, c) for c in S.cfgs[r]][::-1] for r in S.reps]
+            names = ['lbl|r%d' % r for r in S.reps]
+            kw = {'files': fl, 'names': names}
+            ekw = {'names': names}
+        elif fmt == 'sfcf-a':
+            names = ['lbl|r%d' % r for r in S.reps]
+            kw = {'files': ['%s.%s' % (S.rdir(r), ioB.key[0]) for r in S.reps][::-1], 'names': names}
+            ekw = {'names': names}
+        else:
+            kw = {'idl': list(S.cfgs)}
+            ekw = {}
+        e2 = ioB.expect(**ekw)
+        for rep_ in (1, 2):
+            what = {'history': 'argument objects reused', 'call': rep_}
+            res, ok = lib_call(ctx, fmt + ':args-reused', what, lambda: ioB.read(dA, **kw))
+            if ok and e2 is not None:
+                judged(ctx, fmt + ':args-reused', ioB, res, e2, what, ekw=ekw)
+        res, ok = lib_call(ctx, fmt + ':after-explicit-args', {}, lambda: ioB.read(dA))
+        if ok:
+            judged(ctx, fmt + ':after-explicit-args', ioB, res, eB, {'history': 'default call after a call with files / names'})
+        ctx.nontrivial.add(digest('history', A.digest(), B.digest()))
+        ctx.sample({'format': fmt, 'class': 'history', 'sequence': [x[0] for x in seq], 'twins_share': 'file names, replicas, configurations, shapes'})
+
+
+def soft(ctx, fmt, sel, io, call, exp, what, ekw=None):
+    """An input representation the documentation does not list: an exception is recorded as telemetry, a returned
+    result is judged exactly like any other."""
+    LIST.mode = 'sorted'
+    ctx.cell('hard', fmt, sel)
+    try:
+        res = call()
+    except Exception as e:
+        if ctx.classify_exception(e)[0] != 'library':
+            raise
+        ctx.count('undocumented-representation-raises:%s:%s' % (fmt, sel))
+        return
+    ctx.count('reads_judged')
+    if exp is None:
+        ctx.ev()
+        ctx.violation('%s:%s:accepted' % (fmt, sel), what)
+        return
+    judged(ctx, '%s:%s' % (fmt, sel), io, res, exp, what, ekw=ekw)
+
+
+def hard(ctx, rng, fmt, sel, io, call, exp, what, ekw=None, k=1):
+    """A documented call: result required (exp) or exception required (exp None)."""
+    jf = io.judge(ekw)
+    return run_sel(ctx, rng, fmt, sel, call, exp, jf, what, k=k)
+
+
+def case_hard(ctx, rng, fmt):
+    """Checklist 1 (representations), 8 (name traps), 9 (boundary selections), 4 (the same thing twice)."""
+    S = make_set(fmt, rng, ctx.tier)
+    io = IO(fmt, S, rng)
+    with tempfile.TemporaryDirectory(prefix='vmon_C17_', dir=TMPROOT) as root:
+        d = os.path.join(root, 'meas')
+        os.makedirs(d)
+        S.write(d, distractors=False)
+        ctx.count('file_sets')
+        full = io.expect()
+        if full is None:
+            return
+        base_what = {'format': fmt, 'class': 'hardening'}
+        # ---- 1: the same directory spelt differently
+        hard(ctx, rng, fmt, 'path-trailing-slash', io, lambda: io.read(d + '/'), full, base_what)
+        hard(ctx, rng, fmt, 'path-double-slash', io, lambda: io.read(os.path.join(root, '.', 'meas')), full, base_what)
+        cwd = os.getcwd()
+        try:
+            os.chdir(root)
+            hard(ctx, rng, fmt, 'path-relative', io, lambda: io.read('meas'), full, base_what)
+            hard(ctx, rng, fmt, 'path-relative-dot', io, lambda: io.read('./meas'), full, base_what)
+        finally:
+            os.chdir(cwd)
+        if fmt == 'hadrons':
+            import pathlib
+            soft(ctx, fmt, 'path-pathlib', io, lambda: PE.input.hadrons.read_hd5(pathlib.Path(d) / S.stem, S.ens, 'meson', attrs=io.params['k'], idl=list(S.cfgs)),
+                 full, base_what)
+        # ---- 8: a second, complete file set whose names share our prefix lives in the same directory
+        if fmt != 'hadrons':
+            T = make_set(fmt, np.random.default_rng(int(rng.integers(1, 2 ** 31))), ctx.tier)
+            T.prefix = S.prefix + 'B'
+            if hasattr(T, 'postfix'):
+                T.postfix, T.version, T.nrw, T.nfct, T.nsrc = S.postfix, S.version, S.nrw, S.nfct, S.nsrc
+            try:
+                T.write(d, distractors=False)
+                trap_ok = True
+            except Exception:
+                trap_ok = False   # e.g. shapes of the two sets incompatible with the writer: no trap
+            if trap_ok:
+                sep = '_' if fmt.startswith('sfcf') else 'r'
+                hard(ctx, rng, fmt, 'prefix-sharing-neighbour', io, lambda: io.read(d, prefix=S.prefix + sep), full,
+                     dict(base_what, prefix=S.prefix + sep, neighbour=T.prefix), k=2)
+                # remove the neighbour again
+                import shutil
+                for n in os.listdir(d):
+                    if n.startswith(T.prefix):
+                        p = os.path.join(d, n)
+                        shutil.rmtree(p) if os.path.isdir(p) else os.remove(p)
+        if io.family == 'openqcd':
+            r0 = S.reps[0]
+            # a postfix that merely ends like ours
+            junk = os.path.join(d, S.fname(r0).replace('.' + S.fname(r0).split('.', 1)[1], '.x' + S.fname(r0).split('.', 1)[1]))
+            with open(junk, 'wb') as f:
+                f.write(b'\2' * 40)
+            hard(ctx, rng, fmt, 'postfix-lookalike', io, lambda: io.read(d), full, dict(base_what, lookalike=os.path.basename(junk)))
+            os.remove(junk)
+        # ---- 1: representations of the selections
+        nrep = len(S.reps) if hasattr(S, 'reps') else 1
+        if io.family == 'openqcd':
+            cm = {r: io.cfgs(r) for r in S.reps}
+            win = {r: pick_window(rng, cm[r]) for r in S.reps}
+            if all(w is not None and w[0] != 0 for w in win.values()):
+                rs, re_ = [win[r][0] for r in S.reps], [win[r][1] for r in S.reps]
+                e = io.expect(r_start=rs, r_stop=re_)
+                for lab, conv in (('tuple', tuple), ('ndarray', np.array), ('numpy-int', lambda x: [np.int64(v) for v in x]), ('int32-array', lambda x: np.array(x, dtype=np.int32))):
+                    soft(ctx, fmt, 'r_start-as-' + lab, io, lambda conv=conv: io.read(d, r_start=conv(rs), r_stop=conv(re_)), e, dict(base_what, r_start=rs, r_stop=re_))
+            nn = ['lbl|r%d' % r for r in S.reps]
+            soft(ctx, fmt, 'names-as-tuple', io, lambda: io.read(d, names=tuple(nn)), io.expect(names=nn), base_what)
+            soft(ctx, fmt, 'files-as-tuple', io, lambda: io.read(d, files=tuple(S.fname(r) for r in S.reps)), full, base_what)
+            # ---- 9 / 4: boundaries and duplicates
+            first, last = [cm[r][0] for r in S.reps], [cm[r][-1] for r in S.reps]
+            if all(x != 0 for x in first):
+                hard(ctx, rng, fmt, 'r_start-first-r_stop-last', io, lambda: io.read(d, r_start=list(first), r_stop=list(last)), full, base_what)
+            mid = [cm[r][len(cm[r]) // 2] for r in S.reps]
+            if all(x != 0 for x in mid):
+                hard(ctx, rng, fmt, 'r_start-equals-r_stop', io, lambda: io.read(d, r_start=list(mid), r_stop=list(mid)), None, base_what)
+            if fmt.startswith('rwms') or fmt == 'ms.dat-energy':
+                hard(ctx, rng, fmt, 'r_step-beyond-length', io, lambda: io.read(d, r_step=max(len(c) for c in cm.values()) + 3), None, base_what)
+                lens = [len(cm[r]) for r in S.reps]
+                if min(lens) >= 10:
+                    hard(ctx, rng, fmt, 'r_step-largest-admissible', io, lambda: io.read(d, r_step=(min(lens) - 1) // 4), io.expect(r_step=(min(lens) - 1) // 4), base_what)
+            hard(ctx, rng, fmt, 'file-listed-twice', io, lambda: io.read(d, files=[S.fname(S.reps[0])] * 2), None, base_what)
+            if nrep >= 2:
+                hard(ctx, rng, fmt, 'name-given-twice', io, lambda: io.read(d, names=['lbl|r1'] * nrep), None, base_what)
+            # a file with a single record
+            one = os.path.join(root, 'single')
+            os.makedirs(one)
+            r = S.reps[0]
+            cut = S.bounds[r]['records'][0]['end']
+            with open(os.path.join(one, S.fname(r)), 'wb') as f:
+                f.write(S.bytes[r][:cut])
+            hard(ctx, rng, fmt, 'single-record-file', io, lambda: io.read(one), None, base_what)
+        elif fmt == 'ms5_xsf':
+            lex = S.lex()
+            idl = {r: S.cfgs[r][:max(5, len(S.cfgs[r]) - 1)] for r in S.reps}
+            e = io.expect(idl=idl)
+            for lab, conv in (('tuples', tuple), ('ndarrays', np.array), ('numpy-ints', lambda x: [np.int64(v) for v in x])):
+                soft(ctx, fmt, 'idl-as-' + lab, io, lambda conv=conv: io.read(d, idl=[conv(idl[r]) for r in lex]), e, base_what, ekw={'idl': idl})
+            nn = ['lbl|r%d' % r for r in S.reps]
+            soft(ctx, fmt, 'names-as-tuple', io, lambda: io.read(d, names=tuple(nn)), io.expect(names=nn), base_what)
+            hard(ctx, rng, fmt, 'idl-exactly-all', io, lambda: io.read(d, idl=[list(S.cfgs[r]) for r in lex]), full, base_what)
+            hard(ctx, rng, fmt, 'idl-single-configuration', io, lambda: io.read(d, idl=[[S.cfgs[r][0]] for r in lex]), None, base_what)
+            hard(ctx, rng, fmt, 'idl-first-and-last-only', io, lambda: io.read(d, idl=[[S.cfgs[r][0], S.cfgs[r][-1]] for r in lex]), None, base_what)
+            hard(ctx, rng, fmt, 'file-listed-twice', io, lambda: io.read(d, files=[S.fname(S.reps[0])] * 2), None, base_what)
+            if nrep >= 2:
+                hard(ctx, rng, fmt, 'name-given-twice', io, lambda: io.read(d, names=['lbl|r1'] * nrep), None, base_what)
+        elif fmt.startswith('sfcf'):
+            nn = ['lbl|r%d' % r for r in S.reps]
+            soft(ctx, fmt, 'names-as-tuple', io, lambda: io.read(d, names=tuple(nn)), io.expect(names=nn), base_what, ekw={'names': nn})
+            if fmt != 'sfcf-a':
+                soft(ctx, fmt, 'replica-as-tuple', io, lambda: io.read(d, replica=tuple(S.rdir(r) for r in S.reps)), full, base_what)
+                allf = [[S.cfile(r, c) for c in S.cfgs[r]] for r in S.reps]
+                hard(ctx, rng, fmt, 'files-exactly-all', io, lambda: io.read(d, files=[list(x) for x in allf]), full, base_what)
+                soft(ctx, fmt, 'files-as-tuples', io, lambda: io.read(d, files=[tuple(x) for x in allf]), full, base_what)
+                hard(ctx, rng, fmt, 'files-single-configuration', io, lambda: io.read(d, files=[[x[0]] for x in allf]), None, base_what)
+                hard(ctx, rng, fmt, 'configuration-listed-twice', io, lambda: io.read(d, files=[list(x) + [x[0]] for x in allf]), None, base_what)
+                hard(ctx, rng, fmt, 'replica-listed-twice', io, lambda: io.read(d, replica=[S.rdir(S.reps[0])] * 2), None, base_what)
+            else:
+                fa = ['%s.%s' % (S.rdir(r), io.key[0]) for r in S.reps]
+                hard(ctx, rng, fmt, 'file-listed-twice', io, lambda: io.read(d, files=[fa[0]] * len(fa) if len(fa) > 1 else fa * 2), None, base_what)
+        else:
+            c = S.cfgs
+            pick = c[:max(5, len(c) - 1)]
+            even = len(set(np.diff(pick))) == 1
+            e = io.expect(idl=pick)
+            for lab, conv in (('tuple', tuple), ('ndarray', np.array), ('numpy-ints', lambda x: [np.int64(v) for v in x])):
+                soft(ctx, fmt, 'idl-as-' + lab, io, lambda conv=conv: io.read(d, idl=conv(pick)), e, base_what, ekw={'idl': pick})
+            if even:
+                rg = range(pick[0], pick[-1] + 1, pick[1] - pick[0])
+                hard(ctx, rng, fmt, 'idl-as-range', io, lambda: io.read(d, idl=rg), e, base_what, ekw={'idl': pick})
+            hard(ctx, rng, fmt, 'idl-exactly-all', io, lambda: io.read(d, idl=list(c)), full, base_what)
+            hard(ctx, rng, fmt, 'idl-single-configuration', io, lambda: io.read(d, idl=[c[0]]), None, base_what)
+            hard(ctx, rng, fmt, 'idl-configuration-twice', io, lambda: io.read(d, idl=list(c) + [c[0]]), None, base_what)
+            # idl selecting nothing: the reader treats an empty selection like "no selection" (falsy) - undocumented, observed
+            LIST.mode = 'sorted'
+            try:
+                r_ = io.read(d, idl=[])
+                ctx.count('hadrons:idl-empty:' + ('returns-all' if r_.content[0][0].N == len(c) else 'returns-other'))
+            except Exception as ex:
+                if ctx.classify_exception(ex)[0] != 'library':
+                    raise
+                ctx.count('hadrons:idl-empty:raises')
+            # a single configuration file
+            one = os.path.join(root, 'single')
+            os.makedirs(one)
+            import shutil
+            shutil.copy(os.path.join(d, S.fname(c[0])), one)
+            hard(ctx, rng, fmt, 'single-configuration-file', io, lambda: PE.input.hadrons.read_hd5(os.path.join(one, S.stem), S.ens, 'meson', attrs=io.params['k']), None, base_what)
+        ctx.nontrivial.add(digest('hard', S.digest()))
+        ctx.sample({'format': fmt, 'class': 'representations / name traps / boundaries / duplicates'})
+
+
+SCALES = [1e-300, 1e-150, 1e-8, 1e8, 1e150, 1e300]
+
+
+def case_scale(ctx, rng, fmt):
+    """Checklist 6: the same kind of file set with every stored number multiplied by c (1e-300 ... 1e300), exact and
+    negative zeros among the numbers; reweighting factors with exponents close to overflow.  Tolerances stay relative."""
+    if fmt.startswith('rwms'):
+        sc = float(rng.choice([40.0, 150.0, 230.0]))      # |lnr| up to 1.5 * sc: exp(-lnr) up to ~1e150 per factor
+    else:
+        sc = float(rng.choice(SCALES))
+    S = make_set(fmt, rng, ctx.tier, scale=sc)
+    if fmt.startswith('rwms') and sc * 1.5 * max(S.nfct) > 700:
+        S = make_set(fmt, rng, ctx.tier, scale=700.0 / (1.5 * max(S.nfct)) * 0.3)
+    # exact zeros of both signs where the format stores the numbers themselves
+    if fmt == 'ms5_xsf':
+        for r in S.reps:
+            S.rec[r][0][1][0, 0, 0] = 0.0
+            S.rec[r][1][1][0, 0, 0] = -0.0
+    elif fmt.startswith('sfcf'):
+        for r in S.reps:
+            c0, c1 = S.cfgs[r][0], S.cfgs[r][1]
+            for k_ in S.vals[(r, c0)]:
+                S.vals[(r, c0)][k_][0, 0] = 0.0
+                S.vals[(r, c1)][k_][0, 0] = -0.0
+    elif fmt == 'hadrons':
+        S.vals[S.cfgs[0]][0][0] = 0.0
+        S.vals[S.cfgs[1]][0][0] = complex(-0.0, -0.0)
+    io = IO(fmt, S, rng)
+    with tempfile.TemporaryDirectory(prefix='vmon_C17_', dir=TMPROOT) as d:
+        S.write(d, distractors=False)
+        ctx.count('file_sets')
+        e = io.expect()
+        if e is None:
+            return
+        n = hard(ctx, rng, fmt, 'scale', io, lambda: io.read(d), e, {'format': fmt, 'scale': sc}, k=2)
+        ctx.cell('hard', fmt, 'scale', '%.0e' % sc)
+        if n:
+            ctx.nontrivial.add(digest('scale', sc, S.digest()))
+        ctx.sample({'format': fmt, 'class': 'scale', 'factor': sc})
+
+
 def plan(tier):
     m = 1 if tier == 'quick' else 14
-    return [('rwms', 90 * m), ('msdat_energy', 50 * m), ('msdat_t0', 16 * m), ('msdat_qtop', 50 * m), ('gfms', 50 * m), ('ms5', 50 * m), ('sfcf_o', 40 * m), ('sfcf_c', 50 * m), ('sfcf_a', 50 * m), ('hadrons', 50 * m)]
+    h = len(HARD_FMTS)
+    return [('rwms', 75 * m), ('msdat_energy', 40 * m), ('msdat_t0', 14 * m), ('msdat_qtop', 40 * m), ('gfms', 40 * m), ('ms5', 40 * m),
+            ('sfcf_o', 32 * m), ('sfcf_c', 40 * m), ('sfcf_a', 40 * m), ('hadrons', 40 * m),
+            ('history', 5 * h * m), ('hard', 5 * h * m), ('scale', 5 * h * m)]
 
 
 def run_case(ctx, kind, idx, rng):
@@ -1878,3 +2386,9 @@ def run_case(ctx, kind, idx, rng):
         case_sfcf(ctx, rng, kind[-1])
     elif kind == 'hadrons':
         case_hadrons(ctx, rng)
+    elif kind == 'history':
+        case_history(ctx, rng, HARD_FMTS[idx % len(HARD_FMTS)])
+    elif kind == 'hard':
+        case_hard(ctx, rng, HARD_FMTS[idx % len(HARD_FMTS)])
+    elif kind == 'scale':
+        case_scale(ctx, rng, HARD_FMTS[idx % len(HARD_FMTS)])
